@@ -24,6 +24,8 @@ func main() {
 		repo := fs.String("repo", "/repo", "repository root")
 		fs.Parse(os.Args[2:])
 		must(runGen(*out, *repo))
+	case "c11deep":
+		c11Deep()
 	case "c18order":
 		seed, _ := strconv.ParseUint(os.Args[2], 10, 64)
 		c18Order(seed, os.Args[3], os.Args[4], os.Args[5])
